@@ -152,13 +152,18 @@ def finish(prop, level, tier, results, meta, t0, extra_cov=None, assumptions=Non
     for r in results:
         for inst in r.instances[:3]:
             samples.append({"rule": r.rule, **inst})
+    from .sym import Exec
+    st = Exec.stats
     cov = {
-        "explanation": "Static analysis of /repo's MIR (rustc %s, mir-opt-level 0, debug_assertions=%s): %d rules, "
-                       "%d obligations examined, %d discharged; %d functions and %d symbolic paths read. "
-                       "Nothing was executed." % (
-                           meta.get("rustc"), meta.get("debug_assertions"), len(results), obligations, discharged,
-                           len(set().union(*[r.functions for r in results]) if results else set()),
-                           sum(r.paths for r in results)),
+        "explanation": "Static analysis of /repo's MIR (%s, mir-opt-level 0, configurations %s): %d rules, "
+                       "%d obligations examined, %d discharged; the path reader enumerated %d symbolic paths over %d "
+                       "function bodies (of %s exported); rules name %d functions. Nothing was executed." % (
+                           meta.get("rustc"), [c.get("debug_assertions") for c in meta.get("configs", [{}])], len(results),
+                           obligations, discharged, st["paths"], len(st["functions"]), meta.get("bodies"),
+                           len(set().union(*[r.functions for r in results]) if results else set())),
+        "symbolic_paths": st["paths"],
+        "functions_read": sorted(st["functions"])[:80],
+        "path_samples": st["samples"],
         "obligations": obligations,
         "discharged": discharged,
         "checker_cmd": "./check %s --tier %s" % (prop, tier),
